@@ -1121,3 +1121,62 @@ package scipipe
 //@   loop 0 invariant not-yet: forall q *InPort :: !(exists r string :: $visited[r] && old(pt.RemotePorts[r]) == q) ==> closeCalls[q] == old(closeCalls)[q]
 //@   loop 0 invariant removed-from-remote: forall r string :: $visited[r] ==> !((procName(pt.process) + "." + pt.name) in old(pt.RemotePorts[r]).RemotePorts)
 //@   loop 0 invariant nothing-sent: forall c chan *FileIP :: !fresh(c) ==> chanSentN(c) == old(chanSentN(c))
+
+// ---- parameter-port twins ----
+//@ ghost var poutN arr[ref]int
+//@ ghost var poutAt arr[ref]arr[int]string
+//@ ghost var pcloseCalls arr[ref]int
+//@ define wfOutParamPort(pop *OutParamPort) bool = pop.RemotePorts != nil && (forall r string :: r in pop.RemotePorts ==> pop.RemotePorts[r] != nil && pop.RemotePorts[r].Chan != nil) && (forall r1 string, r2 string :: r1 in pop.RemotePorts && r2 in pop.RemotePorts && r1 != r2 ==> pop.RemotePorts[r1] != pop.RemotePorts[r2] && pop.RemotePorts[r1].Chan != pop.RemotePorts[r2].Chan)
+//@ define isRemoteParamChan(pop *OutParamPort, c chan string) bool = exists r string :: r in pop.RemotePorts && pop.RemotePorts[r].Chan == c
+
+//@ func (*InParamPort).Send(pip, param)
+//@   props C04 C08
+//@   modifies chan(pip.Chan)
+//@   ensures appended: chanSentN(pip.Chan) == old(chanSentN(pip.Chan)) + 1 && chanSentAt(pip.Chan, old(chanSentN(pip.Chan))) == param
+//@   ensures earlier-kept: forall j int :: 0 <= j && j < old(chanSentN(pip.Chan)) ==> chanSentAt(pip.Chan, j) == old(chanSentAt(pip.Chan, j))
+//@   ensures no-receive: chanRecvN(pip.Chan) == old(chanRecvN(pip.Chan)) && chanRecvA(pip.Chan) == old(chanRecvA(pip.Chan)) && chanClosed(pip.Chan) == old(chanClosed(pip.Chan))
+
+//@ func (*OutParamPort).Send(pop, param)
+//@   props C04 C08
+//@   requires wf: wfOutParamPort(pop)
+//@   modifies chan, poutN, poutAt
+//@   ghost set poutAt = update(poutAt, pop, update(poutAt[pop], poutN[pop], param))
+//@   ghost set poutN = update(poutN, pop, poutN[pop] + 1)
+//@   ensures each-remote-exactly-once[C04]: forall r string :: r in pop.RemotePorts ==> chanSentN(pop.RemotePorts[r].Chan) == old(chanSentN(pop.RemotePorts[r].Chan)) + 1 && chanSentAt(pop.RemotePorts[r].Chan, old(chanSentN(pop.RemotePorts[r].Chan))) == param
+//@   ensures appended-at-end[C08]: forall r string, j int :: r in pop.RemotePorts && 0 <= j && j < old(chanSentN(pop.RemotePorts[r].Chan)) ==> chanSentAt(pop.RemotePorts[r].Chan, j) == old(chanSentAt(pop.RemotePorts[r].Chan, j))
+//@   ensures other-channels-untouched[C04]: forall c chan string :: !fresh(c) && !isRemoteParamChan(pop, c) ==> chanSentN(c) == old(chanSentN(c))
+//@   ensures logged: poutN == update(old(poutN), pop, old(poutN)[pop] + 1) && poutAt == update(old(poutAt), pop, update(old(poutAt)[pop], old(poutN)[pop], param))
+//@   loop 0 invariant vis: forall r string :: $visited[r] ==> r in pop.RemotePorts
+//@   loop 0 invariant sent: forall r string :: $visited[r] ==> chanSentN(pop.RemotePorts[r].Chan) == old(chanSentN(pop.RemotePorts[r].Chan)) + 1 && chanSentAt(pop.RemotePorts[r].Chan, old(chanSentN(pop.RemotePorts[r].Chan))) == param
+//@   loop 0 invariant not-yet: forall r string :: r in pop.RemotePorts && !$visited[r] ==> chanSentN(pop.RemotePorts[r].Chan) == old(chanSentN(pop.RemotePorts[r].Chan))
+//@   loop 0 invariant earlier-kept: forall r string, j int :: r in pop.RemotePorts && 0 <= j && j < old(chanSentN(pop.RemotePorts[r].Chan)) ==> chanSentAt(pop.RemotePorts[r].Chan, j) == old(chanSentAt(pop.RemotePorts[r].Chan, j))
+//@   loop 0 invariant others: forall c chan string :: !fresh(c) && !isRemoteParamChan(pop, c) ==> chanSentN(c) == old(chanSentN(c))
+//@   loop 0 invariant log-untouched: poutN == old(poutN) && poutAt == old(poutAt)
+
+//@ func (*InParamPort).CloseConnection(pip, popName)
+//@   props C04 C05
+//@   modifies pip.RemotePorts[*], chan(pip.Chan), locked, pcloseCalls
+//@   ghost set pcloseCalls = update(pcloseCalls, pip, pcloseCalls[pip] + 1)
+//@   ensures removed: !(popName in pip.RemotePorts)
+//@   ensures others: forall k string :: k != popName ==> ((k in pip.RemotePorts) <==> old(k in pip.RemotePorts)) && pip.RemotePorts[k] == old(pip.RemotePorts[k])
+//@   ensures channel-closed-iff-last-upstream[C04,C05]: chanClosed(pip.Chan) <==> (old(chanClosed(pip.Chan)) || len(pip.RemotePorts) == 0)
+//@   ensures nothing-sent: chanSentN(pip.Chan) == old(chanSentN(pip.Chan))
+//@   ensures counted: pcloseCalls == update(old(pcloseCalls), pip, old(pcloseCalls)[pip] + 1)
+//@   ensures lock-released: !locked[pip.closeLock]
+//@   atcall builtin.close under-lock-and-empty[C04]: locked[pip.closeLock] && len(pip.RemotePorts) == 0 && $arg0 == pip.Chan
+
+//@ define wfParamPortKeys(pop *OutParamPort) bool = forall r string :: r in pop.RemotePorts ==> pop.RemotePorts[r] != nil && r == procName(pop.RemotePorts[r].process) + "." + pop.RemotePorts[r].name && pop.RemotePorts[r].process != nil
+
+//@ func (*OutParamPort).Close(pop)
+//@   props C04 C05
+//@   requires wf: wfOutParamPort(pop) && wfParamPortKeys(pop) && pop.process != nil
+//@   modifies pop.RemotePorts[*], map[string]*OutParamPort, chan, locked, pcloseCalls
+//@   ensures all-disconnected: forall r string :: !(r in pop.RemotePorts)
+//@   ensures each-remote-notified-once[C04,C05]: forall r string :: old(r in pop.RemotePorts) ==> pcloseCalls[old(pop.RemotePorts[r])] == old(pcloseCalls)[old(pop.RemotePorts[r])] + 1
+//@   ensures nothing-sent: forall c chan string :: !fresh(c) ==> chanSentN(c) == old(chanSentN(c))
+//@   loop 0 invariant vis: forall r string :: $visited[r] ==> old(r in pop.RemotePorts)
+//@   loop 0 invariant gone: forall r string :: $visited[r] ==> !(r in pop.RemotePorts)
+//@   loop 0 invariant kept: forall r string :: !$visited[r] ==> ((r in pop.RemotePorts) <==> old(r in pop.RemotePorts)) && pop.RemotePorts[r] == old(pop.RemotePorts[r])
+//@   loop 0 invariant notified: forall r string :: $visited[r] ==> pcloseCalls[old(pop.RemotePorts[r])] == old(pcloseCalls)[old(pop.RemotePorts[r])] + 1
+//@   loop 0 invariant not-yet: forall q *InParamPort :: !(exists r string :: $visited[r] && old(pop.RemotePorts[r]) == q) ==> pcloseCalls[q] == old(pcloseCalls)[q]
+//@   loop 0 invariant nothing-sent: forall c chan string :: !fresh(c) ==> chanSentN(c) == old(chanSentN(c))
